@@ -89,6 +89,9 @@ type Unit struct {
 	mapWFDone   map[string]bool
 	reachCache  map[string]bool
 	sumDone     map[string]bool
+	freshRefs   map[string]int
+	allocSeq    int
+	freshFloor  int
 	heapInfo    map[string]heapInfo
 	nextEpoch   int
 	oblCount    map[string]int
@@ -119,25 +122,26 @@ type retInfo struct {
 }
 
 type Frame struct {
-	u        *Unit
-	fn       *ssa.Function
-	parent   *Frame
-	vals     map[ssa.Value]Val
-	addrs    map[ssa.Value]*Addr
-	tuples   map[ssa.Value][]Val
-	clos     map[ssa.Value]*closInfo
-	out      map[int]*State
-	edgeC    map[[2]int]string
-	rets     []retInfo
-	defers   []*ssa.Defer
-	tag      string
-	depth    int
-	curBlk   *ssa.BasicBlock
-	loopEnv  map[int]map[string]Val // header index -> name env used for invariants
-	ordinals map[int]int            // header block index -> loop ordinal
-	iters    map[ssa.Value]*iterInfo
-	spec     *FuncSpec
-	params   []Val
+	u         *Unit
+	fn        *ssa.Function
+	parent    *Frame
+	vals      map[ssa.Value]Val
+	addrs     map[ssa.Value]*Addr
+	tuples    map[ssa.Value][]Val
+	clos      map[ssa.Value]*closInfo
+	out       map[int]*State
+	edgeC     map[[2]int]string
+	rets      []retInfo
+	defers    []*ssa.Defer
+	tag       string
+	depth     int
+	curBlk    *ssa.BasicBlock
+	loopEnv   map[int]map[string]Val // header index -> name env used for invariants
+	ordinals  map[int]int            // header block index -> loop ordinal
+	iters     map[ssa.Value]*iterInfo
+	iterByOrd map[int]*iterInfo
+	spec      *FuncSpec
+	params    []Val
 }
 
 type iterInfo struct {
@@ -148,6 +152,8 @@ type iterInfo struct {
 	isStr  bool
 	idxVar string
 	s      Val
+	cnt    string // local counting the keys visited so far
+	card0  string // cardinality of the map when the iteration started
 }
 
 // ---------- unit-level helpers ----------
@@ -386,7 +392,20 @@ func (u *Unit) alloc(st *State) string {
 	a := u.hget(st, "$alloc", sInt)
 	r := u.define("ref", sInt, a)
 	u.hset(st, "$alloc", sInt, sx("+", a, "1"))
+	u.allocSeq++
+	u.freshRefs[r] = u.allocSeq
+	u.freshRefs[a] = u.allocSeq
 	return r
+}
+
+// markWrite records, for callback write-set analysis, whether a heap write targets an object allocated since freshFloor.
+func (u *Unit) markWrite(name, idx0 string) {
+	if seq, ok := u.freshRefs[idx0]; ok && u.freshFloor > 0 && seq >= u.freshFloor {
+		return
+	}
+	for _, s := range u.sinks {
+		s["!"+name] = true
+	}
 }
 
 // ---------- types & facts ----------
@@ -658,6 +677,11 @@ func (u *Unit) readHeapAt(st *State, a *Addr) string {
 
 func (u *Unit) writeHeapAt(st *State, a *Addr, v string) {
 	h := u.hget(st, a.heap, a.hsort)
+	if len(a.idx) > 0 {
+		u.markWrite(a.heap, a.idx[0])
+	} else {
+		u.markWrite(a.heap, "")
+	}
 	switch len(a.idx) {
 	case 0:
 		u.hset(st, a.heap, a.hsort, v)
@@ -722,6 +746,7 @@ func (fr *Frame) storeTo(st *State, a *Addr, v Val) {
 			si := u.reg.structs[u.reg.structSort(a.ty)]
 			for i := 0; i < stt.NumFields(); i++ {
 				hn, hs, _ := fieldHeap(u, a.ty, i)
+				u.markWrite(hn, a.base)
 				u.hset(st, hn, hs, store(u.hget(st, hn, hs), a.base, sx(si.sel(i), v.T)))
 			}
 			return
@@ -991,7 +1016,9 @@ func (fr *Frame) run(entry *State) {
 						u.newWrites[key] = map[string]bool{}
 					}
 					for k := range sink {
-						u.newWrites[key][k] = true
+						if !strings.HasPrefix(k, "!") {
+							u.newWrites[key][k] = true
+						}
 					}
 				}
 			}
@@ -1017,6 +1044,30 @@ func (fr *Frame) headerEnv(b *ssa.BasicBlock, phiVals map[*ssa.Phi]Val) map[stri
 			env[phi.Comment] = v
 		}
 		env[phi.Name()] = v
+		// "for _, x := range <expr>" over a slice: the (unnamed) slice being ranged over is exposed as rangeslice
+		if phi.Comment == "rangeindex" {
+			if refs := phi.Referrers(); refs != nil {
+				for _, r := range *refs {
+					inc, ok := r.(*ssa.BinOp)
+					if !ok || inc.Op != token.ADD {
+						continue
+					}
+					if irefs := inc.Referrers(); irefs != nil {
+						for _, ir := range *irefs {
+							if ia, ok := ir.(*ssa.IndexAddr); ok && ia.Index == ssa.Value(inc) {
+								if _, isSlice := ia.X.Type().Underlying().(*types.Slice); isSlice {
+									if sv, ok := fr.vals[ia.X]; ok {
+										env["rangeslice"] = sv
+									} else if _, isParam := ia.X.(*ssa.Parameter); isParam {
+										env["rangeslice"] = fr.vals[ia.X]
+									}
+								}
+							}
+						}
+					}
+				}
+			}
+		}
 	}
 	return env
 }
@@ -1125,6 +1176,12 @@ func (fr *Frame) enterLoop(b *ssa.BasicBlock, li *loopInfo, st *State, ins []*St
 	}
 	invs := fr.loopInvariants(b)
 	ord := fr.ordinals[b.Index]
+	if it := fr.loopIter(b); it != nil {
+		if fr.iterByOrd == nil {
+			fr.iterByOrd = map[int]*iterInfo{}
+		}
+		fr.iterByOrd[ord] = it
+	}
 	// inv-entry
 	if len(invs) > 0 && !u.discovery {
 		env := fr.headerEnv(b, entryVals)
@@ -1621,12 +1678,75 @@ type heapInfo struct {
 // heapTag names the heap component that stores values of Go type t. Components are per Go type (Burstall-Bornat),
 // so objects of different types can never alias even though references are plain integers.
 func (u *Unit) heapTag(t types.Type) string {
-	s := types.TypeString(t, shortQual)
+	s := canonType(t)
 	tag := sanitize(s)
 	if len(tag) > 40 {
 		tag = tag[:28] + "_" + hash8(s)
 	}
 	return tag
+}
+
+// canonType prints a type so that identical types (aliases resolved, any = interface{}) print identically.
+func canonType(t types.Type) string {
+	t = types.Unalias(t)
+	switch x := t.(type) {
+	case *types.Basic:
+		switch x.Kind() {
+		case types.Uint8:
+			return "uint8"
+		case types.Int32:
+			return "int32"
+		}
+		return x.Name()
+	case *types.Named:
+		n := x.Obj().Name()
+		if x.Obj().Pkg() != nil {
+			n = x.Obj().Pkg().Name() + "." + n
+		}
+		if ta := x.TypeArgs(); ta != nil && ta.Len() > 0 {
+			var as []string
+			for i := 0; i < ta.Len(); i++ {
+				as = append(as, canonType(ta.At(i)))
+			}
+			n += "[" + strings.Join(as, ",") + "]"
+		}
+		return n
+	case *types.Pointer:
+		return "*" + canonType(x.Elem())
+	case *types.Slice:
+		return "[]" + canonType(x.Elem())
+	case *types.Array:
+		return fmt.Sprintf("[%d]%s", x.Len(), canonType(x.Elem()))
+	case *types.Map:
+		return "map[" + canonType(x.Key()) + "]" + canonType(x.Elem())
+	case *types.Chan:
+		return "chan " + canonType(x.Elem())
+	case *types.Interface:
+		if x.NumMethods() == 0 {
+			return "any"
+		}
+		var ms []string
+		for i := 0; i < x.NumMethods(); i++ {
+			ms = append(ms, x.Method(i).Name())
+		}
+		return "interface{" + strings.Join(ms, ";") + "}"
+	case *types.Struct:
+		var fs []string
+		for i := 0; i < x.NumFields(); i++ {
+			fs = append(fs, x.Field(i).Name()+" "+canonType(x.Field(i).Type()))
+		}
+		return "struct{" + strings.Join(fs, ";") + "}"
+	case *types.Signature:
+		var ps, rs []string
+		for i := 0; i < x.Params().Len(); i++ {
+			ps = append(ps, canonType(x.Params().At(i).Type()))
+		}
+		for i := 0; i < x.Results().Len(); i++ {
+			rs = append(rs, canonType(x.Results().At(i).Type()))
+		}
+		return "func(" + strings.Join(ps, ",") + ")(" + strings.Join(rs, ",") + ")"
+	}
+	return types.TypeString(t, shortQual)
 }
 
 func (u *Unit) elemHeapName(et types.Type) string {
@@ -1649,6 +1769,19 @@ func (u *Unit) cellHeapName(et types.Type) string {
 func (u *Unit) wfVal(v string, t types.Type, a string) string {
 	if t == nil || isTimeType(t) {
 		return "true"
+	}
+	if stt, ok := t.Underlying().(*types.Struct); ok {
+		// struct values stored in maps / slices: their reference-typed fields are allocated too (one level)
+		si := u.reg.structs[u.reg.structSort(t)]
+		var fs []string
+		for i := 0; i < stt.NumFields(); i++ {
+			ft := stt.Field(i).Type()
+			if _, nested := ft.Underlying().(*types.Struct); nested {
+				continue
+			}
+			fs = append(fs, u.wfVal(sx(si.sel(i), v), ft, a))
+		}
+		return and(fs...)
 	}
 	switch t.Underlying().(type) {
 	case *types.Pointer, *types.Map, *types.Chan:
@@ -1686,6 +1819,9 @@ func (u *Unit) wfHeap(name, c, a string) {
 
 func (u *Unit) mapStore(st *State, mt *types.Map, m, k, v string) {
 	dn, ds, vn, vs, cn := u.mapHeaps(mt)
+	u.markWrite(dn, m)
+	u.markWrite(vn, m)
+	u.markWrite(cn, m)
 	d := u.hget(st, dn, ds)
 	c := u.hget(st, cn, "(Array Int Int)")
 	had := sel(sel(d, m), k)
@@ -1697,6 +1833,9 @@ func (u *Unit) mapStore(st *State, mt *types.Map, m, k, v string) {
 
 func (u *Unit) mapDelete(st *State, mt *types.Map, m, k string) {
 	dn, ds, vn, vs, cn := u.mapHeaps(mt)
+	u.markWrite(dn, m)
+	u.markWrite(vn, m)
+	u.markWrite(cn, m)
 	d := u.hget(st, dn, ds)
 	c := u.hget(st, cn, "(Array Int Int)")
 	had := sel(sel(d, m), k)
@@ -1785,6 +1924,11 @@ func (fr *Frame) execSlice(st *State, x *ssa.Slice) {
 		}
 		u.check(fr, st, "bounds", "", and(sx("<=", "0", lo), sx("<=", lo, hi), sx("<=", hi, sx("s_cap", s.T))), "slice bounds out of range", x.Pos(), nil)
 		fr.set(x, sx("mkslice", sx("s_arr", s.T), sx("+", sx("s_off", s.T), lo), sx("-", hi, lo), sx("-", mx, lo)))
+		// element i of the sub-slice is element lo+i of the original: stated with sidx terms so that quantified facts about
+		// the original slice are instantiated for the sub-slice
+		sub := fr.vals[x].T
+		u.sidx(sub, "0")
+		u.assume(st, fmt.Sprintf("(forall ((i Int)) (! (= (sidx %s i) (sidx %s (+ %s i))) :pattern ((sidx %s i))))", sub, s.T, lo, sub))
 	case *types.Basic: // string
 		s := fr.val(st, x.X)
 		hi := sx("slen", s.T)
@@ -1826,6 +1970,9 @@ func (u *Unit) concat(a, b string) string {
 	u.reg.declFun("sconcat", "Str Str", sStr)
 	u.reg.axiom("(assert (forall ((a Str) (b Str)) (! (= (slen (sconcat a b)) (+ (slen a) (slen b))) :pattern ((sconcat a b)))))")
 	u.reg.axiom("(assert (forall ((a Str) (b Str) (i Int)) (! (= (sat (sconcat a b) i) (ite (< i (slen a)) (sat a i) (sat b (- i (slen a))))) :pattern ((sat (sconcat a b) i)))))")
+	e := u.reg.strLit("")
+	u.reg.axiom(fmt.Sprintf("(assert (forall ((a Str)) (! (and (= (sconcat a %s) a) (= (sconcat %s a) a)) :pattern ((sconcat a %s)) :pattern ((sconcat %s a)))))", e, e, e, e))
+	u.reg.axiom("(assert (forall ((a Str) (b Str) (c Str)) (! (= (sconcat (sconcat a b) c) (sconcat a (sconcat b c))) :pattern ((sconcat (sconcat a b) c)))))")
 	return sx("sconcat", a, b)
 }
 
@@ -1929,6 +2076,10 @@ func (fr *Frame) execBinOp(st *State, x *ssa.BinOp) {
 	case token.SUB:
 		fr.arith(st, x, sx("-", a.T, b.T))
 	case token.MUL:
+		if srt == sReal && !isNumLit(a.T) && !isNumLit(b.T) {
+			fr.set(x, u.fmul(a.T, b.T))
+			return
+		}
 		fr.arith(st, x, sx("*", a.T, b.T))
 	case token.QUO:
 		if srt == sReal {
@@ -2022,23 +2173,18 @@ func (fr *Frame) execConvert(st *State, x *ssa.Convert) {
 	case fs == sReal && ts == sReal, fs == sStr && ts == sStr:
 		fr.vals[x] = Val{v.T, x.Type(), ""}
 	case fs == sStr && ts == sSlice: // []byte(s)
-		u.reg.declFun("str_bytes", "Str Int", sSlice)
 		r := u.alloc(st)
 		sl := u.define("bytes", sSlice, sx("mkslice", r, "0", sx("slen", v.T), sx("slen", v.T)))
 		fr.vals[x] = Val{sl, x.Type(), ""}
-		// contents: element i of the fresh array equals character i
 		hn, hs := u.elemHeapName(types.Typ[types.Uint8]), "(Array Int (Array Int Int))"
 		arr := u.fresh("bytes_arr", "(Array Int Int)")
-		u.assumeGlobal(fmt.Sprintf("(forall ((i Int)) (! (=> (and (<= 0 i) (< i (slen %s))) (= (select %s i) (sat %s i))) :pattern ((select %s i))))", v.T, arr, v.T, arr))
 		u.hset(st, hn, hs, store(u.hget(st, hn, hs), r, arr))
-		u.reg.declFun("str_of_bytes_src", "Int", sStr)
+		// the fresh array spells s: stated through bytes_str, whose axioms give the individual characters
+		u.assume(st, eq(u.bytesStr(arr, "0", sx("slen", v.T)), v.T))
 	case fs == sSlice && ts == sStr: // string(bytes)
-		s := u.fresh("str_of_bytes", sStr)
-		u.assume(st, eq(sx("slen", s), sx("s_len", v.T)))
 		hn, hs := u.elemHeapName(types.Typ[types.Uint8]), "(Array Int (Array Int Int))"
 		h := u.hget(st, hn, hs)
-		u.assumeGlobal(fmt.Sprintf("(forall ((i Int)) (! (=> (and (<= 0 i) (< i (slen %s))) (= (sat %s i) (select (select %s (s_arr %s)) (sidx %s i)))) :pattern ((sat %s i))))", s, s, h, v.T, v.T, s))
-		fr.vals[x] = Val{s, x.Type(), ""}
+		fr.set(x, u.bytesStr(sel(h, sx("s_arr", v.T)), sx("s_off", v.T), sx("s_len", v.T)))
 	case fs == sInt && ts == sStr: // string(rune)
 		fr.vals[x] = u.freshVal(st, "runestr", x.Type())
 	default:
@@ -2165,6 +2311,14 @@ func (fr *Frame) execRange(st *State, x *ssa.Range) {
 		it.m = v
 		it.kSort = ks
 		it.dom0 = u.define("dom0", fmt.Sprintf("(Array %s Bool)", ks), ite(eq(v.T, "0"), fmt.Sprintf("((as const (Array %s Bool)) false)", ks), sel(u.hget(st, dn, ds), v.T)))
+		it.cnt = fmt.Sprintf("%%seencnt_%s_%s", fr.tag, x.Name())
+		u.heapSort[it.cnt] = sInt
+		st.heap[it.cnt] = "0"
+		_, _, _, _, cn0 := u.mapHeaps(mt)
+		it.card0 = u.define("card0", sInt, sel(u.hget(st, cn0, "(Array Int Int)"), v.T))
+		for _, s := range u.sinks {
+			s[it.cnt] = true
+		}
 		it.seen = fmt.Sprintf("%%seen_%s_%s", fr.tag, x.Name())
 		u.heapSort[it.seen] = fmt.Sprintf("(Array %s Bool)", ks)
 		st.heap[it.seen] = fmt.Sprintf("((as const (Array %s Bool)) false)", ks)
@@ -2222,6 +2376,13 @@ func (fr *Frame) execNext(st *State, x *ssa.Next) {
 	u.assume(st, implies(ok, and(sel(it.dom0, k), not(sel(seen, k)))))
 	u.assume(st, implies(not(ok), fmt.Sprintf("(forall ((kk %s)) (=> (select %s kk) (select %s kk)))", it.kSort, it.dom0, seen)))
 	u.hset(st, it.seen, u.heapSort[it.seen], ite(ok, store(seen, k, "true"), seen))
+	cnt, hasCnt := st.heap[it.cnt]
+	if !hasCnt {
+		cnt = u.hget(st, it.cnt, sInt)
+	}
+	// each key is visited once: the iteration ends exactly when as many keys were visited as the map held
+	u.assume(st, and(sx("<=", "0", cnt), sx("<=", cnt, it.card0), eq(not(ok), eq(cnt, it.card0))))
+	u.hset(st, it.cnt, sInt, ite(ok, sx("+", cnt, "1"), cnt))
 	kv := Val{k, tt.At(1).Type(), ""}
 	u.assume(st, u.facts(st, k, tt.At(1).Type()))
 	vv := Val{u.define(fr.tag+"_"+x.Name()+"_v", u.sortOf(mt.Elem()), val), tt.At(2).Type(), ""}
@@ -2307,6 +2468,10 @@ func builtinGhostSort(name string) string {
 	switch name {
 	case "$atomic", "$lock":
 		return "(Array Int Int)"
+	case "$hashin":
+		return "(Array Int Str)"
+	case "$lastjson":
+		return sStr
 	case "$now", "$alloc":
 		return sInt
 	}
@@ -2343,4 +2508,34 @@ func (u *Unit) unreachable(st *State) bool {
 	}
 	u.reachCache[key] = r
 	return r
+}
+
+func isNumLit(t string) bool {
+	if t == "" {
+		return false
+	}
+	for _, c := range t {
+		if !(c >= '0' && c <= '9') && c != '.' && c != '-' && c != '(' && c != ')' && c != ' ' && c != '/' {
+			return false
+		}
+	}
+	return true
+}
+
+// fmul: the product of two non-constant float64 values, kept uninterpreted (commutative, 0 and 1 neutral laws only): IEEE
+// multiplication is not real multiplication, and nonlinear real arithmetic makes queries unstable.
+func (u *Unit) fmul(a, b string) string {
+	u.reg.declFun("fmul", "Real Real", sReal)
+	u.reg.axiom("(assert (forall ((a Real) (b Real)) (! (= (fmul a b) (fmul b a)) :pattern ((fmul a b)))))")
+	u.reg.axiom("(assert (forall ((a Real)) (! (and (= (fmul a 1.0) a) (= (fmul a 0.0) 0.0)) :pattern ((fmul a 1.0)) :pattern ((fmul a 0.0)))))")
+	u.note("float64 multiplication of two non-constant values is uninterpreted (fmul)")
+	return sx("fmul", a, b)
+}
+
+// bytesStr: the string spelled by n bytes of array arr starting at off.
+func (u *Unit) bytesStr(arr, off, n string) string {
+	u.reg.declFun("bytes_str", "(Array Int Int) Int Int", sStr)
+	u.reg.axiom("(assert (forall ((a (Array Int Int)) (o Int) (n Int)) (! (=> (>= n 0) (= (slen (bytes_str a o n)) n)) :pattern ((bytes_str a o n)))))")
+	u.reg.axiom("(assert (forall ((a (Array Int Int)) (o Int) (n Int) (i Int)) (! (=> (and (<= 0 i) (< i n)) (= (sat (bytes_str a o n) i) (select a (+ o i)))) :pattern ((sat (bytes_str a o n) i)))))")
+	return sx("bytes_str", arr, off, n)
 }
